@@ -214,7 +214,7 @@ class Language(metaclass=abc.ABCMeta):
 
         """
         namespace_str = self._config.get_config_value(self._section, self.WKCV_SUPPORT_NAMESPACE, default_value="")
-        return namespace_str.split(".")
+        return _checked_support_namespace(namespace_str)
 
     @property
     def enable_stropping(self) -> bool:
@@ -709,3 +709,25 @@ class LanguageClassLoader:
         """
         ln_module, ln_class = self.load_language_class(language_name)
         return ln_class(ln_module.__name__, config=self.config, **kwargs)
+
+
+def _checked_support_namespace(namespace_str: str) -> typing.List[str]:
+    """
+    The support namespace names the folder (one sub-folder per dot separated component) the support files are generated
+    into, below the output directory, and the path every generated file includes them from. A component that is not a
+    plain identifier would move them elsewhere: a path separator creates or leaves folders and a component that is an
+    absolute path replaces the output directory altogether.
+
+    :param str namespace_str: The configured, dot separated support namespace ("" = no sub-folder).
+    :return: The components of the namespace.
+    :raises ValueError: If a component is not of the form ``[A-Za-z_][A-Za-z0-9_]*``.
+    """
+    import re  # pylint: disable=import-outside-toplevel
+
+    components = namespace_str.split(".")
+    if namespace_str != "" and not all(re.fullmatch(r"[A-Za-z_][A-Za-z0-9_]*", component) for component in components):
+        raise ValueError(
+            f"The support namespace {namespace_str!r} (support_namespace) must be a dot separated list of identifiers "
+            "([A-Za-z_][A-Za-z0-9_]*): it names folders below the output directory."
+        )
+    return components
